@@ -143,6 +143,19 @@ Attr make_attr(uint64_t seed, bool wifi) {
     a.wifi = wifi;
     a.flags = boundary16(r);
     for (uint32_t bit = 1; bit <= G_PHY; bit <<= 1) gen_field(a, r, bit);
+    // content with a meaning to somebody: byte-order marks and file signatures at the start of the large properties (drawn outside
+    // the main stream so that the other attributes of a seed stay what they were)
+    static const std::vector<Bytes> MAGIC = {{0xFF, 0xFE}, {0xFE, 0xFF}, {0xEF, 0xBB, 0xBF}, {0x00, 0x00}, {0x89, 0x50, 0x4E, 0x47}, {0x42, 0x4D}, {0x00, 0x00, 0x01, 0x00}, {0xFF, 0xD8, 0xFF}, {0xFF, 0xFE, 0x00, 0x00}, {0xFF}, {0xFF, 0xFF}};
+    auto stamp = [&](Bytes &b, uint64_t salt, size_t unit) {
+        uint64_t x = mix64(seed, salt);
+        if (x % 10 != 0) return;
+        const Bytes &m = MAGIC[(x >> 8) % MAGIC.size()];
+        if (unit == 2 && m.size() % 2) return;
+        if ((x >> 20) & 1) { for (size_t i = 0; i < m.size() && i < b.size(); i++) b[i] = m[i]; } // overwrite the start (size unchanged)
+        else if (unit == 1) b.insert(b.begin(), m.begin(), m.end());                                 // or prepend
+        if (((x >> 24) & 7) == 0) b = m;                                                              // or the property is the mark alone
+    };
+    stamp(a.fname, 0xF1A6, 1); stamp(a.icon, 0x1C01, 1); stamp(a.hwid, 0x4D1D, 2);
     return a;
 }
 void attr_mutate(Attr &a, uint64_t seed, uint32_t fieldmask) {
@@ -1002,7 +1015,9 @@ void World::exec_op(int i) {
             uint8_t opc = op.a[3] == 0 ? ((id & 1) ? wire::W_PROBE : wire::W_TRAIN) : (uint8_t)op.a[3];
             Mac s = synth_mac(id);
             Frame fr;
-            fr.data = wire::header(nm, s, 0, opc, nm, s, 0);
+            // a[5] / a[6]: fixed real source / fixed Ethernet source (address ids as for PROBE; 0 = per-frame address as usual)
+            Mac rs = op.a[5] != 0 ? id_mac(*this, op.a[5] == -2 ? 0 : op.a[5]) : s, es = op.a[6] != 0 ? id_mac(*this, op.a[6] == -2 ? 0 : op.a[6]) : s;
+            fr.data = wire::header(nm, es, 0, opc, nm, rs, 0);
             fr.wire_id = ++wire_counter;
             handle_delivery(node, fr, i, &op, 0);
             if (!violations.empty() && !verbose) stop = true;
